@@ -16,6 +16,7 @@ Arguments tl_try : simpl never.
 Arguments tl_rel_raises : simpl never.
 Arguments normalise : simpl never.
 Arguments faulty : simpl never.
+Arguments intr : simpl never.
 Arguments enabled : simpl never.
 Arguments remove_all : simpl never.
 Arguments remove_one : simpl never.
@@ -23,7 +24,7 @@ Arguments remove_one : simpl never.
 (* the descriptor a thread's pending primitive works on *)
 Definition pc_fd (p : pc) : option fdid :=
   match p with
-  | PFlock _ d | PCloseF _ d | PUnlock _ d _ | PCloseR _ d _ => Some d
+  | PFlock _ d | PCloseF _ d _ | PUnlock _ d _ | PCloseR _ d _ => Some d
   | _ => None
   end.
 
@@ -31,7 +32,7 @@ Definition pc_fd (p : pc) : option fdid :=
 Definition pc_obj (p : pc) : option oid :=
   match p with
   | PIdle => None
-  | PTLAcq a _ | POpen a | PFlock a _ | PCloseF a _ | PSleep a _ | PCleanRel a _ => Some (a_o a)
+  | PTLAcq a _ | POpen a | PFlock a _ | PCloseF a _ _ | PSleep a _ | PCleanRel a _ => Some (a_o a)
   | PUnlock o _ _ | PCloseR o _ _ | PTLRel o _ => Some o
   end.
 
@@ -403,7 +404,7 @@ Theorem FD_step s t : TL s -> FD s -> viol (step s t) = false -> FD (step s t).
 Proof.
   intros H F Hv. destruct (enabled s t) eqn:He; [|unfold step; now rewrite He].
   pose proof (enabled_alive _ _ He) as Hal.
-  destruct (t_pc (thr s t)) as [|a dl|a|a d|a d|a w|a oserr|o d k|o d k|o k] eqn:Hpc.
+  destruct (t_pc (thr s t)) as [|a dl|a|a d|a d i|a w|a oserr|o d k|o d k|o k] eqn:Hpc.
   - (* PIdle *) destruct (t_prog (thr s t)) as [|c rest] eqn:Hpr; [unfold step; now rewrite He, Hpc, Hpr|].
     destruct (step_viol_call _ _ _ _ Hpc Hpr He Hv) as [Hok _].
     unfold step. rewrite He, Hpc, Hpr. cbn.
@@ -460,7 +461,8 @@ Proof.
   - (* POpen *)
     unfold step. rewrite He, Hpc. cbn.
     assert (Hpr : o_proc (objs s (a_o a)) = t_proc (thr s t)) by (apply (pr_pc _ F); rewrite Hpc; reflexivity).
-    destruct (faulty s KOpen).
+    destruct (faulty s KOpen); [destruct (intr s KOpen)|].
+    + eapply FD_tail; eauto; [|apply Tail_enter_cleanup|now rewrite Hpc]. repeat split.
     + eapply FD_tail; eauto; [|apply Tail_after_attempt|now rewrite Hpc]. repeat split.
     + apply (FD_open s _ t (a_o a)); auto; [constructor; frames2|..]; frames3.
       * rewrite Hpc. reflexivity.
@@ -468,8 +470,8 @@ Proof.
   - (* PFlock *)
     unfold step. rewrite He, Hpc. cbn.
     assert (Hpr : o_proc (objs s (a_o a)) = t_proc (thr s t)) by (apply (pr_pc _ F); rewrite Hpc; reflexivity).
-    assert (Hfail : forall s1, kern_eq s1 s -> FD (set_pc s1 t (PCloseF a d))).
-    { intros s1 (E1 & E2 & E3 & E4 & E5 & E6).
+    assert (Hfail : forall s1 i, kern_eq s1 s -> FD (set_pc s1 t (PCloseF a d i))).
+    { intros s1 i (E1 & E2 & E3 & E4 & E5 & E6).
       apply (FD_soft s _ t (a_o a)); auto; [constructor; frames2; congruence|..]; frames3; try congruence.
       - now rewrite Hpc.
       - rewrite E2. auto. }
@@ -484,7 +486,7 @@ Proof.
   - (* PCloseF *)
     unfold step. rewrite He, Hpc. cbn.
     assert (Hpr : o_proc (objs s (a_o a)) = t_proc (thr s t)) by (apply (pr_pc _ F); rewrite Hpc; reflexivity).
-    destruct (faulty s KClose).
+    destruct (faulty s KClose || i).
     + eapply (FD_close_tail s _ _ t (a_o a) d); eauto; [|rewrite Hpc; reflexivity|apply Tail_enter_cleanup]. repeat split.
     + eapply (FD_close_tail s _ _ t (a_o a) d); eauto; [|rewrite Hpc; reflexivity|apply Tail_after_attempt]. repeat split.
   - (* PSleep *)
